@@ -20,6 +20,7 @@ LEAF = [
                                 "varintGroupGetFieldWidth", "varintGroupGetSize"]),
     ("elias", "varintElias.c", ["floorLog2", "varintEliasGammaBits", "varintEliasGammaMaxBytes",
                                 "varintEliasDeltaMaxBytes"]),
+    ("for", "varintFOR.c", ["varintFORComputeWidth"]),
 ]
 
 
